@@ -56,7 +56,15 @@ theorem user_facts :
         Ring.mcmedPushCalls + Ring.mcfmtPushCalls ∧
     0 < Ring.serverDefaultQueueSize ∧ 0 < Ring.clientDefaultQueueSize ∧
     Rtsp.Ring.sizeRejected Ring.serverDefaultQueueSize = false ∧
-    Rtsp.Ring.sizeRejected Ring.clientDefaultQueueSize = false := by decide
+    Rtsp.Ring.sizeRejected Ring.clientDefaultQueueSize = false ∧
+    -- the capacity each owner gives its queue (createWriter): the configured WriteQueueSize for the
+    -- application-facing shapes (client: recording or back channel set up; session: play; multicast
+    -- writer), and this power of two for the RTCP-only shapes (the Go capacity probes expect 8)
+    Ring.clientRtcpOnlyQueueSize = 8 ∧ Ring.sessionRtcpOnlyQueueSize = 8 ∧
+    Rtsp.Ring.sizeRejected Ring.clientRtcpOnlyQueueSize = false ∧
+    Ring.multicastWriterUsesQueueSize = true ∧ Ring.multicastWriterQueueSizeFromServer = true ∧
+    -- the owners' OnError gives up when the Processor's own context is done (Close cancels it before joining)
+    Ring.sessionOnErrorGivesUpOnProcessorCtx = true ∧ Ring.clientOnErrorGivesUpOnProcessorCtx = true := by decide
 
 /-- test (bounded, by evaluation): the sizes `New` accepts up to 260 are 0 and the powers of two -/
 example : (List.range 261).filter (fun n => !Rtsp.Ring.sizeRejected n) =
